@@ -184,6 +184,50 @@ theorem loaded_delegate_is_used {old : Bool} {s : St} {t i v : Nat} (hf : s.fram
   refine ⟨{ s with frame := upd s.frame t .idle, recorded := (i, v) :: s.recorded }, ?_, rfl⟩
   simp [step, hf]
 
+/-! ### self-set (`SetMeterProvider(GetMeterProvider())` / `SetTracerProvider(GetTracerProvider())` while the
+placeholder is still the global value — a save/restore helper): documented no-op, must not use up the once -/
+
+/-- a self-set changes nothing: not the once, not the stored provider, no delegate, no frame -/
+theorem self_set_is_noop {old : Bool} {s s' : St} {t : Nat} (h : step old s t .selfSet = some s') : s' = s := by
+  simp only [step] at h
+  split at h
+  · exact (Option.some.inj h).symm
+  · simp at h
+
+/-- it never blocks: enabled for every idle thread as long as the placeholder is the global value -/
+theorem self_set_enabled {old : Bool} {s : St} {t : Nat} (hf : s.frame t = .idle) (hs : s.stored = false) :
+    step old s t .selfSet = some s := by
+  simp [step, hf, hs]
+
+/-- any number of self-sets by any threads, at any moment (before, during, after the installation) -/
+theorem self_sets_are_noop {old : Bool} {s s' : St} (ts : List Nat)
+    (h : runLabels old s (ts.map fun t => (t, Act.selfSet)) = some s') : s' = s := by
+  induction ts generalizing s with
+  | nil => simp [runLabels] at h; exact h.symm
+  | cons t r ih =>
+    simp only [List.map_cons, runLabels] at h
+    split at h
+    · next s1 h1 => rw [self_set_is_noop h1] at h; exact ih h
+    · simp at h
+
+/-- in particular the once is still available after self-sets: the real installation that follows runs
+`setDelegate` (it enters the once instead of taking the fast path). `Reachable` contains every schedule with
+self-sets, so `forwarding_after_install`, `no_instrument_left_behind`, `callback_registered_once` hold for them. -/
+theorem install_after_self_sets_enters_once {s s1 s2 : St} (ts : List Nat) {t : Nat}
+    (h0 : s.onceDone = false) (h1 : runLabels false s (ts.map fun t => (t, Act.selfSet)) = some s1)
+    (h2 : step false s1 t .instBegin = some s2) : s2.frame t = .iOnce ∧ s2.onceOwner = some t := by
+  have := self_sets_are_noop ts h1
+  subst this
+  simp only [step] at h2
+  split at h2
+  · simp only [h0] at h2
+    split at h2
+    · next hc => exact absurd hc (by simp)
+    · split at h2
+      · simp only [Option.some.injEq] at h2; subst h2; simp
+      · simp at h2
+  · simp at h2
+
 /-! ### callbacks (clause "each previously registered callback is registered with the SDK exactly once unless it
 had been unregistered") -/
 
@@ -233,6 +277,7 @@ theorem unregister_handle_taken_once {s : St} (hr : Reachable false s) {t t' r :
 callback registered before is registered with the SDK once -/
 def demoLabels : List (Nat × Act) :=
   [(0, .meterNew), (0, .mk 0), (0, .reg 0), (1, .addLoad 0 5), (1, .addFwd),
+   (4, .selfSet),                    -- save/restore helper before any SDK exists
    (2, .instBegin), (2, .instLockProv), (2, .instLockMeter 0), (2, .instSetDel),
    (3, .mk 0),                       -- blocked in reality; here: must not be enabled
    (2, .instInst 0), (2, .instRegLock), (2, .instRegBody), (2, .instMeterDone), (2, .instProvUnlock),
@@ -240,7 +285,7 @@ def demoLabels : List (Nat × Act) :=
 
 example : (runLabels false St.init demoLabels).isNone = true := by decide   -- `mk 0` under the installer's lock is disabled
 example :
-    ((runLabels false St.init (demoLabels.eraseIdx 9)).map
+    ((runLabels false St.init (demoLabels.eraseIdx 10)).map
       fun s => (s.onceDone, s.recorded, s.dropped, s.sdkReg 0, s.iDel 0)) = some (true, [(0, 7)], [(0, 5)], 1, true) := by
   decide
 example : (step false wState 0 .instRegLock) = none := by decide
